@@ -604,9 +604,14 @@ type Evidence struct {
 }
 
 func writeEvidence(prop string, ev *Evidence) {
-	os.MkdirAll("/verif/evidence", 0o755)
+	dir := "/verif/evidence"
+	if repoDir != "/repo" {
+		// runs against a scratch copy (mutants, seeded changes) must not overwrite the evidence of the real tree
+		dir = "/verif/work/evidence-scratch"
+	}
+	os.MkdirAll(dir, 0o755)
 	b, _ := json.MarshalIndent(ev, "", " ")
-	os.WriteFile(filepath.Join("/verif/evidence", prop+".json"), append(b, '\n'), 0o644)
+	os.WriteFile(filepath.Join(dir, prop+".json"), append(b, '\n'), 0o644)
 }
 
 func sortedSet(m map[string]bool) []string {
